@@ -227,5 +227,13 @@ C18_OnlyThem ==
   stage = "done" /\ fault.p = "none" /\ ~flags.skipGenerated /\ ~flags.diff /\ ~flags.print =>
       \A i \in 1..N : kinds[i] = "generated" => disk[i] = "patched"
 
+\* ... a file without any marker is processed exactly as without the flag
+C18_PlainProcessed ==
+  stage = "done" =>
+     \A i \in 1..N : kinds[i] = "match" /\ ~Failed(i) =>
+        IF flags.diff THEN \E k \in 1..Len(stdout) : stdout[k] = [f |-> i, what |-> "diff"]
+        ELSE IF flags.print THEN \E k \in 1..Len(stdout) : stdout[k] = [f |-> i, what |-> "patched"]
+        ELSE disk[i] = "patched"
+
 Terminates == <>(Ended)
 ====
